@@ -15,6 +15,9 @@ func init() {
 		reflect.TypeOf((*fmt.Stringer)(nil)).Elem(),
 	}
 
+	MapTypes[reflect.ValueOf(fmt.Append)] = mt
+	MapTypes[reflect.ValueOf(fmt.Appendf)] = mt
+	MapTypes[reflect.ValueOf(fmt.Appendln)] = mt
 	MapTypes[reflect.ValueOf(fmt.Errorf)] = mt
 	MapTypes[reflect.ValueOf(fmt.Fprint)] = mt
 	MapTypes[reflect.ValueOf(fmt.Fprintf)] = mt
@@ -32,12 +35,21 @@ func init() {
 	MapTypes[reflect.ValueOf(log.Panic)] = mt
 	MapTypes[reflect.ValueOf(log.Panicf)] = mt
 	MapTypes[reflect.ValueOf(log.Panicln)] = mt
+	MapTypes[reflect.ValueOf(log.Print)] = mt
+	MapTypes[reflect.ValueOf(log.Printf)] = mt
+	MapTypes[reflect.ValueOf(log.Println)] = mt
 
 	mt = []reflect.Type{reflect.TypeOf((*fmt.Scanner)(nil)).Elem()}
 
+	MapTypes[reflect.ValueOf(fmt.Fscan)] = mt
+	MapTypes[reflect.ValueOf(fmt.Fscanf)] = mt
+	MapTypes[reflect.ValueOf(fmt.Fscanln)] = mt
 	MapTypes[reflect.ValueOf(fmt.Scan)] = mt
 	MapTypes[reflect.ValueOf(fmt.Scanf)] = mt
 	MapTypes[reflect.ValueOf(fmt.Scanln)] = mt
+	MapTypes[reflect.ValueOf(fmt.Sscan)] = mt
+	MapTypes[reflect.ValueOf(fmt.Sscanf)] = mt
+	MapTypes[reflect.ValueOf(fmt.Sscanln)] = mt
 
 	MapTypes[reflect.ValueOf(json.Marshal)] = []reflect.Type{
 		reflect.TypeOf((*json.Marshaler)(nil)).Elem(),
